@@ -1,26 +1,57 @@
+from rsm_common import rsm
+
+CLAIM = ("C10, solver-decidable parts (bounded symbolic execution of the real sources): "
+         "(danger) lib/lha_reader.c is_dangerous_symlink <=> target absolute or with a '..' component, all targets up to the bound; "
+         "(shape) the ONLY path src/extract.c hands to the arch layer, file_full_path(header, options), equals [w=DIR '/'] + header path without leading '/' + "
+         "file name, and - for header strings within the library's C11 guarantee - its part after the w= prefix is relative and has no empty/'.'/'..' component "
+         "before its last one; every directory make_parent_directories probes/creates is a prefix of that path cut at a '/', probed before created; "
+         "(excl) lib/lha_arch_unix.c lha_arch_fopen = unlink(p); open(p, O_CREAT|O_WRONLY|O_EXCL, owner-only); fchown/fchmod on the descriptor; fdopen; "
+         "cleanup close+remove on every failure; lha_arch_symlink = unlink(p); symlink(t, p): an object at the final path component is replaced, never followed; "
+         "(readonly) with the real tool code and reader layer, the commands l, v, t, p and x/e/p/t with n reach none of the mutating arch functions; "
+         "(defer) dangerous links only produce an owner-only placeholder while members are being read; the deferred list stays sorted longest path first "
+         "(inductive insert from an arbitrary sorted list); lha_reader_next_file hands out deferred links only when the basic reader is exhausted and the "
+         "directory stack empty (inductive step from an arbitrary state under a stated invariant); over whole runs of <= 2 (thorough: 3) members no other "
+         "mutating arch call follows the first dangerous lha_arch_symlink, and those come longest first; "
+         "(dirs) chmod/chown/utime are applied only to directories this run created (model filesystem run shared with C06).")
+ASSUMPTIONS = [
+    "NOT encoded: the kernel's path resolution, unlink/open(O_EXCL)/symlink semantics, umask, races with other processes. The claim about staying inside the "
+    "extraction directory rests on: resolving a relative path that has no '..' component in a tree without directory symlinks stays below the start directory; "
+    "unlink() and open(O_CREAT|O_EXCL) do not follow a symlink at the final component (POSIX).",
+    "header strings satisfy property C11 (file name without '/', path components real names after at most one leading '/'): assumed here, decided by the C11/C05 harnesses",
+    "extract_path (w=DIR) is the user's own text and is not restricted; '..' inside it is the user's choice",
+    "strings are bounded as stated per harness; the layers below the reader (header parser, decoders) are stubs with arbitrary results",
+    "callers extract every entry at most once and always extract re-presented directories / deferred links (what src/extract.c does)",
+    "make_parent_directories is not run on an output path that is empty or consists of '/' only (real code forms path-1 there: undefined pointer arithmetic, harmless in practice)",
+]
 LU = {"print_list_headings.0": 22, "print_list_separators.0": 22, "ro_printf.0": 22, "print_footers.2": 22}
-CLAIM = ("C10 (partial, solver-decidable parts).  TODO")
-ASSUMPTIONS = []
+SHAPE_STUBS = ["lha_arch_exists / lha_arch_mkdir: recording stubs, arbitrary results per call", "malloc/strdup/free: typed static buffers (size asked is checked)", "safe_printf/safe_fprintf: no-ops"]
+RO_STUBS = ["lha_arch_mkdir/_fopen/_symlink/_chmod/_chown/_utime: CHECK(0) (must be unreachable)", "lha_arch_exists: arbitrary", "lha_basic_reader_*: delivers the arbitrary headers",
+            "lha_decoder_*/lha_macbinary_passthrough: arbitrary results, <= 2 non-empty reads, progress callback invoked",
+            "fwrite/fstat/localtime/time: arbitrary", "malloc/strdup of the output path: static buffers", "safe_printf: no-op; printf: returns the length of a lone %s argument, else 0, no other effect"]
+RUN_STUBS = ["lha_basic_reader_*: serves the M headers then NULL", "decoders: arbitrary success, one read", "lha_arch_*: recording stubs carrying the trace checks, arbitrary results", "fwrite/fclose: stubs",
+             "lha_file_header_add_ref/free: reference counting ghost"]
 HARNESSES = [
-    dict(name="danger.n7", src="C10/danger.c", defines=["N=7"], unwind=10,
+    dict(name="danger.n8", src="C10/danger.c", defines=["N=8"], unwind=11,
          units=["lib/lha_reader.c:is_dangerous_symlink"], timeout=120,
-         bounds="all NUL-terminated link targets of <= 7 bytes (all byte values), and target == NULL",
+         bounds="all NUL-terminated link targets of <= 8 bytes (all byte values), and target == NULL",
          claim="is_dangerous_symlink <=> target starts with '/' or has a component equal to '..' (independent reference predicate)"),
+    dict(name="danger.n12", src="C10/danger.c", defines=["N=12"], unwind=15, tier="thorough",
+         units=["lib/lha_reader.c:is_dangerous_symlink"], timeout=900,
+         bounds="all NUL-terminated link targets of <= 12 bytes"),
     dict(name="excl.trace", src="C10/excl.c", unwind=12,
-         units=["lib/lha_arch_unix.c:lha_arch_fopen,lha_arch_symlink,lha_arch_mkdir,lha_arch_chmod,lha_arch_chown,lha_arch_utime,lha_arch_exists"], timeout=120,
+         units=["lib/lha_arch_unix.c:lha_arch_fopen,lha_arch_symlink,lha_arch_mkdir,lha_arch_chmod,lha_arch_chown,lha_arch_utime,lha_arch_exists"], timeout=200,
          bounds="arbitrary uid/gid/perms/mode/timestamp; every libc call returns an arbitrary value within its contract (0/-1, fd >= -1, stream or NULL)",
          stubs=["unlink/open/fchown/fchmod/fdopen/close/remove/symlink/mkdir/chown/chmod/utime/stat: recording stubs with arbitrary results",
                 "fopen/creat/rename/lchown/truncate/link/rmdir/openat: recorded as forbidden"]),
     dict(name="shape.s3", src="C10/shape.c", defines=["SL=3"], unwind=13,
          units=["src/extract.c:file_full_path,make_parent_directories,check_parent_directory"], timeout=300,
          bounds="path, filename, extract_path: all strings of <= 3 bytes within the C11 guarantee (extract_path unconstrained), each may be NULL; use_path 0/1; lha_arch_exists/mkdir results arbitrary per call",
-         stubs=["lha_arch_exists / lha_arch_mkdir: recording stubs, arbitrary results", "malloc/strdup/free: typed static buffers (size asked is checked)", "safe_printf/safe_fprintf: no-ops"]),
-    dict(name="shape.s4", src="C10/shape.c", defines=["SL=4"], unwind=16,
-         units=["src/extract.c:file_full_path,make_parent_directories,check_parent_directory"], timeout=600,
-         bounds="as shape.s3 with strings of <= 4 bytes",
-         stubs=["lha_arch_exists / lha_arch_mkdir: recording stubs, arbitrary results", "malloc/strdup/free: typed static buffers (size asked is checked)", "safe_printf/safe_fprintf: no-ops"]),
+         stubs=SHAPE_STUBS),
+    dict(name="shape.s4", src="C10/shape.c", defines=["SL=4"], unwind=16, tier="thorough",
+         units=["src/extract.c:file_full_path,make_parent_directories,check_parent_directory"], timeout=900,
+         bounds="as shape.s3 with strings of <= 4 bytes", stubs=SHAPE_STUBS),
     dict(name="defer.insert", src="C10/defer.c", entry="harness_insert", defines=["SL=2"], unwind=6,
-         units=["lib/lha_reader.c:extract_placeholder_symlink,file_header_path_len"], timeout=200,
+         units=["lib/lha_reader.c:extract_placeholder_symlink,file_header_path_len"], timeout=400,
          bounds="arbitrary sorted deferred list of <= 3 headers + the current header; path and file name each NULL or <= 2 arbitrary bytes; lha_arch_fopen succeeds or fails",
          stubs=["lha_arch_fopen: recording, arbitrary result", "fclose, lha_file_header_add_ref: counting stubs"]),
     dict(name="defer.next", src="C10/defer.c", entry="harness_next", defines=["SL=2"], unwind=5,
@@ -28,25 +59,25 @@ HARNESSES = [
          bounds="arbitrary reader state under the stated invariant: any current-file type, <= 2 queued directories, <= 2 deferred links, basic reader with/without current and next member, paths NULL or <= 2 bytes, three directory policies",
          stubs=["lha_basic_reader_next_file/_curr_file: arbitrary, 'exhausted' is absorbing", "lha_file_header_free: recording"]),
     dict(name="defer.run.m2", src="C10/defer_run.c", defines=["M=2"], unwind=8, unwindset={"copy_bytes.0": 30},
-         units=["lib/lha_reader.c"], timeout=300, mem_gb=6,
+         units=["lib/lha_reader.c"], timeout=600, mem_gb=6,
          bounds="2 members (dir / file / symlink), header path <= 2 arbitrary bytes, name NULL or 1 byte, link target <= 3 arbitrary bytes; any extra_flags/timestamp; each member extracted or skipped; every arch call succeeds or fails arbitrarily; 3 directory policies",
-         stubs=["lha_basic_reader_*: serves the 2 headers then NULL", "decoders: arbitrary success, one read", "lha_arch_*: recording stubs with the trace checks, arbitrary results", "fwrite/fclose: stubs"]),
+         stubs=RUN_STUBS),
     dict(name="defer.run.m3", src="C10/defer_run.c", defines=["M=3"], unwind=11, unwindset={"copy_bytes.0": 42}, tier="thorough",
          units=["lib/lha_reader.c"], timeout=1800, mem_gb=6,
-         bounds="as defer.run.m2 with 3 members",
-         stubs=["as defer.run.m2"]),
+         bounds="as defer.run.m2 with 3 members", stubs=RUN_STUBS),
 ] + [
     dict(name="readonly.%s" % nm, src="C10/readonly.c", defines=["M=2", "SL=2", "CMD=%d" % c], unwind=uw, unwindset=us,
-         units=["src/list.c", "src/extract.c", "src/filter.c", "lib/lha_reader.c"], timeout=200, mem_gb=6, object_bits=12,
-         bounds="command %s; <= 2 members (dir/symlink/compressed/stored; strings <= 2 arbitrary bytes, each may be NULL; all numeric fields arbitrary), dry-run flag, quiet 0..2, verbose, i, w=, no wildcards, three dir policies, decoder results arbitrary" % nm,
-         stubs=["lha_arch_mkdir/_fopen/_symlink/_chmod/_chown/_utime: CHECK(0)", "lha_arch_exists: arbitrary", "lha_basic_reader_*: delivers the arbitrary headers", "lha_decoder_*/lha_macbinary_passthrough: arbitrary results, <= 2 non-empty reads, progress callback invoked",
-                "fwrite/fstat/localtime/time: arbitrary", "safe_printf: no-op; printf: returns the length of a lone %s argument, else 0, no other effect"])
+         units=["src/list.c", "src/extract.c", "src/filter.c", "lib/lha_reader.c"], timeout=300, mem_gb=6, object_bits=12,
+         bounds="command %s; 2 members (dir/symlink/compressed/stored; strings <= 2 arbitrary bytes, each may be NULL; all numeric fields arbitrary), dry-run flag, quiet 0..2, verbose, i, w=, no wildcards, three dir policies, decoder results arbitrary" % nm,
+         stubs=RO_STUBS)
     for nm, c, uw, us in [("l", 0, 14, LU), ("v", 1, 14, LU), ("t", 2, 7, {}), ("p", 3, 7, {}), ("xn", 4, 7, {})]
 ] + [
     dict(name="dirs.cat%d" % c, src="C06/dirs.c", defines=["M=3", "CAT=%d" % c], unwind=9,
-         units=["lib/lha_reader.c:extract_directory,set_directory_metadata,lha_reader_next_file,lha_reader_extract"], timeout=300, mem_gb=6,
+         units=["lib/lha_reader.c:extract_directory,set_directory_metadata,lha_reader_next_file,lha_reader_extract"], timeout=400, mem_gb=6,
          bounds="catalogue entry %d (%s) of the C06 model-filesystem run; directories may exist before the run with arbitrary mode/time" % (c, d),
          claim="directory metadata (chmod/chown/utime) is applied only to directories this run created; a pre-existing directory is left as it was",
          stubs=["lha_arch_*: model filesystem", "lha_basic_reader_*: serves the 3 headers", "decoder: payload decodes, one read"])
     for c, d in [(1, "a/ a/f c/"), (4, "a/ a/b/ a/g")]
+] + [
+    rsm(2, 4, timeout=600),
 ]
